@@ -436,7 +436,15 @@ func BuildSeqHeaderFromVpsSpsPps(vps, sps, pps []byte) ([]byte, error) {
 	return sh, nil
 }
 
-func ParseVps(vps []byte, ctx *Context) error {
+func ParseVps(vps []byte, ctx *Context) (err error) {
+	// nazabits.BitReader在哥伦布编码恰好结束于buffer最后一个bit时会数组越界panic，
+	// vps/sps来自对端，这里兜底，避免非法数据导致整个进程退出
+	defer func() {
+		if r := recover(); r != nil {
+			err = nazaerrors.Wrap(base.ErrHevc)
+		}
+	}()
+
 	if len(vps) < 2 {
 		return nazaerrors.Wrap(base.ErrHevc)
 	}
@@ -470,8 +478,13 @@ func ParseVps(vps []byte, ctx *Context) error {
 	return parsePtl(&br, ctx, vpsMaxSubLayersMinus1)
 }
 
-func ParseSps(sps []byte, ctx *Context) error {
-	var err error
+func ParseSps(sps []byte, ctx *Context) (err error) {
+	// 见ParseVps中的说明
+	defer func() {
+		if r := recover(); r != nil {
+			err = nazaerrors.Wrap(base.ErrHevc)
+		}
+	}()
 
 	if len(sps) < 2 {
 		return nazaerrors.Wrap(base.ErrHevc)
